@@ -11,6 +11,19 @@ TARGETS = ["unit", "idx", "idxarr", "idx8", "path47", "path46", "path233", "path
 BIG = 10 ** 6
 
 
+def leaf_count(s):
+    if s[0] == "leaf":
+        return 1
+    if s[0] == "array":
+        return s[1] * leaf_count(s[2])
+    return sum(leaf_count(c) for c in s[2])
+
+
+def enumerable(types):
+    """types small enough for brute-force enumeration (excludes the 2^63+1 element array)"""
+    return [t for t in types if leaf_count(T.tup(t["schema"])) <= 100000]
+
+
 class Cases:
     def __init__(self, types):
         self.types = types
@@ -214,6 +227,32 @@ def cases_c11(types, rng, tier):
     return c
 
 
+def cases_c11_wide(c, all_types):
+    """index-width boundaries: very wide levels (beyond u8/u16/u32 indices)"""
+    by = {t["label"]: t for t in all_types}
+    w = by.get("arr_wide2")
+    if w:
+        for i in (255, 256, 65535, 65536, 69999):
+            c.add(w["tid"], f"iter 2 L:i{i} idx {BIG} 2 0 10", f"leaf2@I:{i},0 leaf2@I:{i},1 extra0",
+                  f"iteration rooted at element {i} of [[_; 2]; 70000]", "wide:root")
+            c.add(w["tid"], f"iter 1 L:i{i} idx {BIG} 2 0 10", f"internal1@I:{i} extra0",
+                  f"depth-limited iteration rooted at element {i} of [[_; 2]; 70000]", "wide:root")
+        c.add(w["tid"], f"iter 2 L:i70000 idx {BIG} 1 0 10", "rooterr notFound 1", "root beyond a 70000 element array", "wide:root")
+        c.add(w["tid"], f"iter 2 - idx {BIG} 2 0 200000",
+              "n=140001 leaf2@I:0,0 leaf2@I:0,1 leaf2@I:1,0 ... leaf2@I:69999,0 leaf2@I:69999,1 extra0".replace(
+                  "... leaf2@I:69999,0", "... leaf2@I:69998,1 leaf2@I:69999,0"),
+              "full iteration of [[_; 2]; 70000] (crosses the 16-bit index boundary)", "wide:full")
+        c.add(w["tid"], f"iter 1 - unit 0 2 0 200000",
+              "n=70001 internal1@unit internal1@unit internal1@unit ... internal1@unit internal1@unit internal1@unit extra0",
+              "depth-limited iteration of [[_; 2]; 70000]", "wide:full")
+    h = by.get("arr_huge")
+    if h:
+        for i in (255, 256, 65535, 65536, 2 ** 32 - 1, 2 ** 32, 2 ** 32 + 1, 2 ** 63):
+            c.add(h["tid"], f"iter 1 L:i{i} idx {BIG} 2 0 10", f"leaf1@I:{i} extra0",
+                  f"iteration rooted at element {i} of a 2^63+1 element array", "wide:root")
+        c.add(h["tid"], f"iter 1 L:i{2 ** 63 + 1} idx {BIG} 2 0 10", "rooterr notFound 1", "root beyond the huge array", "wide:root")
+
+
 # ------------------------------------------------------------------------------- C04
 
 def cases_c04(types, rng, tier):
@@ -295,9 +334,16 @@ def cases_c09(types, rng, tier):
 # ------------------------------------------------------------------------------- runner
 
 def run_typelevel(rep, prop_id, cases_fn, rng, tier, rule, assumptions, allow_bv=False):
-    types = T.load_corpus()
+    all_types = T.load_corpus()
+    types = enumerable(all_types)
     pl = proof_layer(prop_id, allow_bv=allow_bv, thorough=(tier == "thorough"))
     c = cases_fn(types, rng, tier)
+    if prop_id == "C11":
+        for t in all_types:
+            if t not in types:
+                c.lines.insert(c.n_decl, f"T d{t['tid']} {t['tid']} {t['schema_text']}")
+                c.n_decl += 1
+        cases_c11_wide(c, all_types)
     r = paired_run(rep, c.lines, c.oracle, c.nontrivial)
     for f in pl["failures"]:
         rep.violation("proof", {"theorem_or_translator": f, "property_module": f"MiniconfVerif.Props.{prop_id}"},
